@@ -490,8 +490,8 @@ fn gen_cmp(spec: &SchemeSpec, pool: &[MValue]) -> Option<String> {
             2 => format!("{lhs} contains {}", gen_needle(pool)),
             3 => format!("{lhs} matches \"{}\"", REGEXES[choose(REGEXES.len(), "cmp.re")]),
             4 => format!("{lhs} matches r#\"{}\"#", REGEXES[choose(REGEXES.len(), "cmp.re")]),
-            5 => format!("{lhs} wildcard \"{}\"", WILDCARDS[choose(WILDCARDS.len(), "cmp.wc")]),
-            6 => format!("{lhs} strict wildcard \"{}\"", WILDCARDS[choose(WILDCARDS.len(), "cmp.wc")]),
+            5 => format!("{lhs} wildcard \"{}\"", gen_wildcard()),
+            6 => format!("{lhs} strict wildcard \"{}\"", gen_wildcard()),
             7 => format!("{lhs} in {{{} {}}}", literal_for(&ty, pool), literal_for(&ty, pool)),
             _ => format!("{lhs} < {}", literal_for(&ty, pool)),
         },
@@ -515,7 +515,24 @@ fn maybe_in_list(spec: &SchemeSpec, lhs: &str, ty: &MType, body: String) -> Stri
 }
 
 const REGEXES: &[&str] = &["^a", "e+x", "(one|two)", "[0-9]+$", "^$", "(?i)abc", "a.c", "\\\\.com$", "^.{3}$"];
-const WILDCARDS: &[&str] = &["*", "a*", "*.com", "o?e", "ABC", "*e*", "t*o"];
+const WILDCARDS: &[&str] = &["*", "a*", "*.com", "o?e", "ABC", "*e*", "t*o", "EXAMPLE.*", "*AMPLE.com", "Example.Com", "/P/A/T/H*", "needle*"];
+
+thread_local! {
+    static RUN_WILDCARD: std::cell::Cell<Option<&'static str>> = const { std::cell::Cell::new(None) };
+}
+
+/// One wildcard pattern preferred by every wildcard comparison generated during this run, so that the same
+/// pattern text tends to appear under both `wildcard` and `strict wildcard`, in several filters of one run.
+pub fn set_run_wildcard(on: bool) {
+    RUN_WILDCARD.with(|c| c.set(if on { Some(WILDCARDS[7 + choose(WILDCARDS.len() - 7, "run.wildcard")]) } else { None }));
+}
+
+fn gen_wildcard() -> &'static str {
+    match RUN_WILDCARD.with(|c| c.get()) {
+        Some(p) if chance(2, 3, "cmp.wc_run") => p,
+        _ => WILDCARDS[choose(WILDCARDS.len(), "cmp.wc")],
+    }
+}
 
 fn gen_needle(pool: &[MValue]) -> String {
     // needles from substrings of pool byte strings or fresh, lengths crossing 0/1/2..16/>16
